@@ -88,6 +88,7 @@ OUTER:
 		if stopped {
 			return
 		}
+		verifGate("merger.beforeIngest", m)
 
 		// ---------------------------------------------
 		// Atomically ingest stackDirtyTop into stackDirtyMid.
